@@ -30,6 +30,8 @@ type tnode struct {
 var treeNamePool = []string{"a", "b", "c d", "é", "00", "A1x", ".", "..", "x.txt", "漢字", "%41", "0A", "FF", "n1", "n2", "n3", "n4", "\xff\xfe", "a\nb", " ",
 	// numeric-looking names (a path segment that parses as an index is still a name) and names around / beyond 255 bytes
 	"0", "7", "007", "-1", "2024", "9223372036854775807",
+	// names that begin or end with white space (and their trimmed twins)
+	"t ", " t", "t", "t\t", "\nt", "t\u00a0", "\u00a0",
 	"L255" + strings.Repeat("x", 251), "L256" + strings.Repeat("x", 252), "L257" + strings.Repeat("x", 253), "L300" + strings.Repeat("x", 296), "L1000" + strings.Repeat("x", 995)}
 
 // genTreeNames draws distinct entry names without '/' (a path separator) for one directory.
